@@ -15,7 +15,8 @@ META = {
 
 
 def TASKS(tier):
-    return frontier_tasks(tier, progress=True) + start_tasks(tier, 'start')
+    # timeouts (adaptive batching) are not the subject here: see C05 / C18
+    return frontier_tasks(tier, progress=True) + [t for t in start_tasks(tier, 'start') if t.params.get('timed')]
 
 
 def classify(t, v):
